@@ -132,7 +132,11 @@ func (ctx *baseTaskContext) addRequests(req *protoCommonV1.TaskRequest, physical
 // Complete completes the task with error(if execute failure).
 func (ctx *baseTaskContext) Complete(err error) {
 	ctx.mutex.Lock()
-	ctx.err = err
+	// a response may have failed the task while the pipeline was still sending the plan's requests:
+	// the verdict of the pipeline must not wipe that failure out
+	if err != nil || ctx.err == nil {
+		ctx.err = err
+	}
 	ctx.mutex.Unlock()
 
 	ctx.tryClose()
